@@ -91,6 +91,11 @@ impl WalIndex {
         #[cfg(walrus_verif)]
         crate::wal::verif::io_check(crate::wal::verif::IoKind::Rename, &tmp_path, &self.path, 0, 0)?;
         fs::rename(&tmp_path, &self.path)?;
+        // A rename is durable only once the directory has been synced; without this a
+        // power loss brings back the previous index (consumed entries are redelivered).
+        if let Some(dir) = std::path::Path::new(&self.path).parent() {
+            fs::File::open(dir)?.sync_all()?;
+        }
         Ok(())
     }
 }
